@@ -71,7 +71,7 @@ func cellMap(run *bsRun) []hx.Sx {
 }
 
 func genC15(o *hx.Out, r *hx.Rng, tier string, replay string) error {
-	o.Rule = "benchstat inputs from the C14 generator; each is run through the real binary several times across GOMAXPROCS in {1,2,3,16} in text and csv (bytes compared), a subset under a -race build, twice in process (fresh map seeds), and once more with the benchmark lines of every configuration block permuted (cell contents compared as a map keyed by table/row/column labels). non-trivial = at least two cells; distinct by input"
+	o.Rule = "vary-warnings: tables of 2-4 columns x 24-40 rows where -row .name merges sub-benchmarks differing in /format, /n (and the note: file key under -table goos; columns by file or by -col /v), so that \"benchmarks vary in ...\" arises in the baseline cell AND other cells of the same row (same / different field lists), only in the baseline, only elsewhere, nowhere; each run repeatedly at GOMAXPROCS 1,2,4,16 in text and csv (stdout and the csv warning stream compared byte for byte), twice more in process and under the -race build; the first run's text footnotes and csv warnings are compared with the rendering model of the tables in which every cell carries the warning derived from the residue keys of its OWN measurements. benchstat inputs from the C14 generator; each is run through the real binary several times across GOMAXPROCS in {1,2,3,16} in text and csv (bytes compared), a subset under a -race build, twice in process (fresh map seeds), and once more with the benchmark lines of every configuration block permuted (cell contents compared as a map keyed by table/row/column labels). non-trivial = at least two cells; distinct by input"
 	exe, err := buildBenchstat(false)
 	if err != nil {
 		return err
@@ -141,7 +141,7 @@ func genC15(o *hx.Out, r *hx.Rng, tier string, replay string) error {
 		raceOK := true
 		if i < nrace {
 			for _, p := range []string{"4", "16"} {
-				out, serr, _ := runBinary(raceExe, dir, in, "text", []string{"GOMAXPROCS=" + p})
+				out, serr, _ := runBinary(raceExe, dir, in, "text", []string{"GOMAXPROCS=" + p, "GORACE=atexit_sleep_ms=0"})
 				if strings.Contains(serr, "DATA RACE") {
 					raceOK = false
 				}
@@ -204,6 +204,10 @@ func genC15(o *hx.Out, r *hx.Rng, tier string, replay string) error {
 		input := map[string]interface{}{"input": in, "permuted": in2, "first_diff": firstDiff, "identical": identical, "race_ok": raceOK}
 		o.Add(hx.L(hx.Bool(identical), hx.Bool(raceOK), hx.List(cellsA), hx.List(cellsB), hx.I(nruns)),
 			input, fmt.Sprint(in), ncells >= 2)
+	}
+	// over-aggregation warnings in several cells of one row, many rows (c15warn.go)
+	if err := c15GenVaryCases(o, r.Split(), tier, exe, raceExe); err != nil {
+		return err
 	}
 	// all invocations once more inside one process: forwards, then backwards, so that every
 	// invocation runs both after and before invocations with other flags
